@@ -39,7 +39,10 @@ var spdxRelName = map[sbom.Edge_Type][]string{
 }
 
 var allFormats = []formats.Format{formats.CDX10JSON, formats.CDX11JSON, formats.CDX12JSON, formats.CDX13JSON, formats.CDX14JSON,
-	formats.CDX15JSON, formats.SPDX23JSON, formats.SPDX22JSON, formats.SPDX23TV, formats.SPDX22TV}
+	formats.CDX15JSON, formats.SPDX23JSON, formats.SPDX22JSON, formats.SPDX23TV, formats.SPDX22TV, spdx3Format}
+
+// the beta SPDX 3 serializer registers itself under this format when its package is linked (tag verifbeta)
+const spdx3Format = formats.Format("text/spdx+json;version=3.0")
 
 // registeredOutputFormats: every format constant for which a serializer is registered at run time.
 func registeredOutputFormats() []formats.Format {
@@ -120,6 +123,63 @@ func checkSPDXOutput(doc *sbom.Document, out []byte) error {
 			if !isRoot {
 				return fmt.Errorf("output invents the root element %q", id)
 			}
+		}
+	}
+	return nil
+}
+
+// checkSPDX3Output: one element per node, one relationship element per edge, the roots verbatim.
+func checkSPDX3Output(doc *sbom.Document, out []byte) error {
+	var j map[string]any
+	if err := json.Unmarshal(out, &j); err != nil {
+		return fmt.Errorf("output is not JSON: %v", err)
+	}
+	emitted := map[string]int{}
+	rels := map[string]int{}
+	for _, e := range jsonArr(j["element"]) {
+		eo := jsonObj(e)
+		switch jsonStr(eo["type"]) {
+		case "Package", "File":
+			emitted[jsonStr(eo["SpdxId"])]++
+		case "Relationship":
+			for _, to := range jsonArr(eo["to"]) {
+				rels[jsonStr(eo["from"])+" "+jsonStr(eo["relationshipType"])+" "+jsonStr(to)]++
+			}
+		}
+	}
+	for _, n := range doc.NodeList.Nodes {
+		if c := emitted[n.Id]; c != 1 {
+			return fmt.Errorf("node %q is emitted %d times", n.Id, c)
+		}
+	}
+	if len(emitted) != len(doc.NodeList.Nodes) {
+		return fmt.Errorf("output has %d elements for %d nodes", len(emitted), len(doc.NodeList.Nodes))
+	}
+	for _, e := range doc.NodeList.Edges {
+		for _, to := range e.To {
+			if rels[e.From+" "+e.Type.String()+" "+to] == 0 {
+				return fmt.Errorf("edge %q -%v-> %q has no relationship element", e.From, e.Type, to)
+			}
+		}
+	}
+	for k := range rels {
+		parts := strings.SplitN(k, " ", 3)
+		if emitted[parts[0]] == 0 || emitted[parts[2]] == 0 {
+			return fmt.Errorf("relationship %q refers to an element that was not emitted", k)
+		}
+	}
+	roots := map[string]bool{}
+	for _, r := range jsonArr(j["rootElement"]) {
+		roots[jsonStr(r)] = true
+	}
+	for _, r := range doc.NodeList.RootElements {
+		if !roots[r] {
+			return fmt.Errorf("root element %q is missing from rootElement", r)
+		}
+	}
+	for r := range roots {
+		if emitted[r] == 0 {
+			return fmt.Errorf("rootElement names %q, which was not emitted", r)
 		}
 	}
 	return nil
@@ -381,6 +441,10 @@ func checkTranslation(doc *sbom.Document, f formats.Format) (bool, error) {
 		return false, nil // a refusal is not a silent loss (multi-root / rootless CycloneDX, CycloneDX < 1.2 JSON)
 	}
 	switch {
+	case f == spdx3Format:
+		if err := checkSPDX3Output(doc, out); err != nil {
+			return true, fmt.Errorf("%s output: %v\n%s", f, err, trunc(string(out), 2500))
+		}
 	case strings.Contains(string(f), "spdx") && f.Encoding() == formats.JSON:
 		if err := checkSPDXOutput(doc, out); err != nil {
 			return true, fmt.Errorf("%s output: %v\n%s", f, err, trunc(string(out), 2500))
